@@ -235,8 +235,9 @@ func TestMC_C03(t *testing.T) {
 	for b := 0; b <= pb; b++ {
 		bounds = append(bounds, sched.Bound{PB: b})
 	}
+	dl := seqmc.Deadline()
 	mk := func(c c03cfg) sched.Config {
-		return sched.Config{Property: "C03", Name: c03Variant + "/" + c.name, New: func() sched.Scenario { return &c03scn{cfg: c} }, Bounds: bounds, Horizon: 60000, Deadline: seqmc.Deadline()}
+		return sched.Config{Property: "C03", Name: c03Variant + "/" + c.name, New: func() sched.Scenario { return &c03scn{cfg: c} }, Bounds: bounds, Horizon: 60000, Deadline: dl}
 	}
 	if rp := seqmc.ReplayFile(); rp != "" {
 		v, err := sched.LoadViolation(rp)
@@ -261,11 +262,20 @@ func TestMC_C03(t *testing.T) {
 	res.Property = "C03"
 	cfgs := c03Configs(thorough)
 	// big pre-queued configurations are long executions: they get PB <= 1
+	mine := 0
+	for i := range cfgs {
+		if i%sn == si {
+			mine++
+		}
+	}
+	k := 0
 	for i, c := range cfgs {
 		if i%sn != si {
 			continue
 		}
 		cfg := mk(c)
+		cfg.Deadline = sched.FairDeadline(cfg.Deadline, k, mine)
+		k++
 		if c.preLow+c.preHigh > 8 {
 			cfg.Horizon = 400000
 			cfg.Bounds = []sched.Bound{{PB: 0}, {PB: 1}}
